@@ -43,6 +43,15 @@ def main(tier, seed):
                              "plant": 0.5})},
                         mode="jit" if c % 2 else "interp", timeout=300 if q else 1800, tag="metaviews:%d" % c,
                         stall_s=90))
+    # the same rewrites on large planted models with a small search space (long argument lists; a quarter of them behind
+    # 250+ instantiated variables)
+    for c in range(2 if q else 4):
+        jobs.append(Job("framework.props.metarun", "run_meta",
+                        {"seed": seed * 2017 + c, "count": 60 if q else 1200, "max_points": 3000,
+                         "deadline_s": 60 if q else 900, "no_translate": True,
+                         "gen": {"source": "large_constraints_small_search", "max_vars": 12 if c % 2 == 0 else 20}},
+                        mode="jit" if c % 2 == 0 else "interp", timeout=300 if q else 1800, tag="metalarge:%d" % c,
+                        stall_s=120))
     n = 7
     for c in range(n):
         jobs.append(Job("framework.props.metarun", "run_meta_shipped",
